@@ -182,6 +182,10 @@ def gen_api(rng, tier, sy):
         cases.append(env_hdr(e, sy).replace("API ", "APIS ", 1) + " ; W=%d X=%d R=%d K=%d T=%d" %
                      (rng.choice([2, 4]), rng.choice([1, 2]), 20 if quick else 200, rng.choice([16, 32, 64]),
                       min(8192, 3 * max(e["MS"], e["MD"]) + rng.choice([1, 5, 17]))))
+    # (f) the migrating joiner: a ULT of a pool shared by two streams frees a tasklet that has not run yet (the free
+    # polls with yields, the caller resumes on either stream) while its siblings use the streams' descriptor pools
+    for e in (ENVS[0], ENVS[2]) if quick else ENVS:
+        cases.append(env_hdr(e, sy).replace("API ", "APIS ", 1) + " ; W=1 X=0 R=2 K=2 J=%d" % (4000 if quick else 60000))
     return cases
 
 
